@@ -50,6 +50,12 @@ def plan(tier, seed):
     rnd = random.Random(seed)
     quick = tier == 'quick'
     jobs = [{'prog': p, 'vars': v, 'label': 'invalid:' + l} for l, p, v in invalid_programs(tier)]
+    # the same on several lines with Windows line endings (normalised before tokenizing outside XML mode)
+    for l, p, v in invalid_programs(tier):
+        if l in ('under-condition', 'empty-repeat', 'two-sites-different', 'attributes'):
+            p2 = {'tag': 'div', 'close_indent': 0, 'children': ['l1', {'tag': 'br', 'indent': 1, 'children': None},
+                                                                {'tag': 'w', 'indent': 2, 'children': [p]}]}
+            jobs.append({'prog': p2, 'vars': v, 'label': 'invalid:crlf:' + l, 'crlf': True})
     # valid programs: strict and non-strict render identically (metamorphic); reuse the C01 / C04 grammars
     from checks import C01, C04
     valid = C01.plan('quick', seed)['families'][0]['jobs'] + C04.plan('quick', seed)['families'][0]['jobs']
@@ -71,10 +77,11 @@ def plan(tier, seed):
                 'depends on bindings (condition, literally false condition, empty repeat, later pipe alternative, '
                 'on-error guard; content/define/attributes/omit-tag/${} sites; same and different invalid text twice): '
                 'strict construction must raise ExpressionError located at the first site, non-strict construction must '
-                'succeed and render must raise the ExpressionError located at the reached site iff the reference '
-                'interpreter reaches it; %d valid templates from the C01/C04 grammars render identically under both '
+                'succeed and render must raise the ExpressionError located at the reached site (token, offset, line and '
+                'column) iff the reference interpreter reaches it; 4 of them again spread over several lines with CRLF '
+                'line endings; %d valid templates from the C01/C04 grammars render identically under both '
                 'settings. Bindings decided by the solver. Outside: unused macros, invalid non-python expression types.'
-                % (len(invalid_programs(tier)), len(jobs) - len(invalid_programs(tier)))),
+                % (len(invalid_programs(tier)), len(jobs) - len(invalid_programs(tier)) - 4)),
         assumptions=['reachability oracle = reference interpreter vlib/refsem.py', 'offset of a planted site = position of its '
                      'text in the template the harness serialised'],
         families=[fam],
